@@ -348,6 +348,51 @@ def design_driver(m, i, nshards, tier):
                                     f"(labels {dmm.common.terms[name].labels})", case=case, key="mixed-number-levels")
                 except Exception as e:
                     m.violation("options-honoured", f"{text} on an object column holding {lv_sorted}: {type(e).__name__}: {e}", case=case, key="raises")
+    # levels that are dates (datetime64[ns]), and a call that returns a bare ordered pd.Categorical with an unused category
+    if i == 2 % nshards:
+        dates = pd.to_datetime(["2020-03-01", "2019-05-05", "2020-01-01", "2021-12-31"])
+        for nlev, unit in ((2, "ns"), (3, "us"), (4, "ns"), (3, "s")):
+            lv_sorted = sorted(dates[:nlev])
+            vals = [dates[j % nlev] for j in rng.permutation(3 * nlev)]
+            dfd = pd.DataFrame({"y": rng.normal(size=len(vals)), "x": rng.normal(size=len(vals)),
+                                "dt": pd.Series(vals).astype(f"datetime64[{unit}]")})
+            rows = dfd["dt"]
+            for text, kept in (("C(dt)", lv_sorted[1:]), ("0 + C(dt)", lv_sorted), ("x + C(dt):x", lv_sorted[1:])):
+                case = {"formula": "y ~ " + text, "levels": [str(l) for l in lv_sorted], "column": "dt", "option": "dates"}
+                m.case(case, canon=[text, case["levels"], "dates"], nontrivial=True)
+                m.ev("options-honoured")
+                try:
+                    dmd = formulae.design_matrices("y ~ " + text, dfd)
+                    name = [t for t in dmd.common.terms if "C(dt)" in t][0]
+                    X = np.asarray(dmd.common[name], dtype=float)
+                    mult = dfd["x"].to_numpy() if ":x" in name else 1.0
+                    want = np.column_stack([(rows == l).to_numpy().astype(float) * mult for l in kept])
+                    if X.shape != want.shape or not np.allclose(X, want):
+                        m.violation("options-honoured", f"{text} on a datetime64 column with {nlev} dates: columns are not the indicators of the "
+                                    f"dates in chronological order (labels {dmd.common.terms[name].labels})", case=case, key="date-levels")
+                except Exception as e:
+                    m.violation("options-honoured", f"{text} on a datetime64 column: {type(e).__name__}: {e}", case=case, key="raises")
+
+        def ocut(v):
+            return pd.Categorical(np.where(np.asarray(v) > 0, "hi", "lo"), categories=["never", "lo", "hi"], ordered=True)
+
+        dfo = pd.DataFrame({"y": rng.normal(size=12), "x": rng.normal(size=12)})
+        dfo.loc[0, "x"], dfo.loc[1, "x"] = 1.0, -1.0
+        rows = np.where(dfo["x"].to_numpy() > 0, "hi", "lo")
+        for text, kept in (("0 + ocut(x)", ["never", "lo", "hi"]), ("ocut(x)", ["lo", "hi"])):
+            case = {"formula": "y ~ " + text, "levels": ["never", "lo", "hi"], "column": "ocut(x)", "option": "ordered-categorical-from-call"}
+            m.case(case, canon=[text, "ocut"], nontrivial=True)
+            m.ev("options-honoured")
+            try:
+                dmo = formulae.design_matrices("y ~ " + text, dfo, extra_namespace={"ocut": ocut})
+                name = text.replace("0 + ", "")
+                X = np.asarray(dmo.common[name], dtype=float)
+                want = np.column_stack([(rows == l).astype(float) for l in kept])
+                if X.shape != want.shape or not np.array_equal(X, want) or list(dmo.common.terms[name].labels) != [f"{name}[{l}]" for l in kept]:
+                    m.violation("options-honoured", f"{text}: an ordered categorical returned by a call loses its declared order / categories "
+                                f"(labels {dmo.common.terms[name].labels})", case=case, key="ordered-categorical-from-call")
+            except Exception as e:
+                m.violation("options-honoured", f"{text}: {type(e).__name__}: {e}", case=case, key="raises")
     # one encoding object shared by two factors with different levels
     if i == 0:
         from formulae.categorical import Sum, Treatment
